@@ -81,6 +81,15 @@ func runMatcherProperty(t *testing.T, prop string) {
 		toks := make([]string, len(mc.Steps))
 		for k, st := range mc.Steps {
 			toks[k] = st.OrTok
+			if st.Op.Send {
+				// the judge sees what the IMPLEMENTATION sent (identifiers read off its bytes), not what
+				// the model would have sent; a failed send records nothing
+				if len(st.Written) > 0 {
+					toks[k] = fmt.Sprintf("S:%d:%d:%s", st.Op.TTL, st.Now, hx2(st.Written))
+				} else {
+					toks[k] = "r:-" // placeholder step (answers one token, changes nothing)
+				}
+			}
 			if !st.Op.Send && strings.HasPrefix(st.Impl, "acc:") {
 				f := strings.Split(st.Impl, ":")
 				toks[k] = fmt.Sprintf("j:%s:%s:%s:%s", hx2(st.Op.Pkt), f[1], f[2], f[3])
